@@ -1,181 +1,23 @@
-(** Storage/Syntax.v — an executable reader for the object syntax the storage model has to re-read:
-    what [ser_prim] emits and what tools/oracle/pdfwriter.py emits (parser/mod.rs: parse_with_lexer_ctx,
-    parse_indirect_object, parse_stream_object on that domain).  The universally quantified theorems do
-    not depend on this file: there the reader is a Section function with the round-trip premise (which
-    is property C04).  Err 9 = PdfError::Other-class parse error; Err 98/97 = outside the modelled domain.
-    No proofs in this file. *)
-From PdfV Require Import Base.Prelude Storage.Prim.
+(** Storage/Syntax.v — the reader of the storage model IS the shared parser model: an indirect object at an
+    absolute position of the backend is read by [PdfV.Syn.Parser.parse_indirect_object] (file.rs:
+    Storage::resolve_ref, `Lexer::with_offset(backend.read(start_offset + pos ..), start_offset + pos)` +
+    parse_indirect_object), a member of an object stream by [PdfV.Syn.Parser.parse] (file.rs: parse(slice, ..)).
+    Err 97 = an indirect /Length (outside the modelled domain of the storage checks: the resolver passed to the
+    parser is the storage itself).  No proofs in this file. *)
+From PdfV Require Import Base.Prelude Gen.Generated Storage.Prim.
+From PdfV Require Lex.Lexer Syn.Parser.
 
-(** number token: sign, digits, optional fraction *)
-Definition parse_number (w : bytes) : res prim :=
-  let '(neg, w1) := match w with c :: t => if c =? 45 then (true, t) else if c =? 43 then (false, t) else (false, w) | [] => (false, w) end in
-  let '(ip, r) := span_digits w1 [] in
-  match r with
-  | [] => match ip with [] => Err 9 | _ => Ok (PInt (if neg then Z.opp (Z.of_N (N_of_dec ip)) else Z.of_N (N_of_dec ip))) end
-  | c :: r1 =>
-    if c =? 46 then
-      let '(fp, r2) := span_digits r1 [] in
-      match r2 with
-      | [] => match f32_of_dec neg (N_of_dec (ip ++ fp)) (lenN fp) with Some b => Ok (PReal b) | None => Err 98 end
-      | _ => Err 9
-      end
-    else Err 9
-  end.
+Definition len_resolver : Parser.resolver := fun _ _ _ => Err 97.
 
-Definition octal (c : N) : bool := (48 <=? c) && (c <=? 55).
-
-(** lexer/str.rs: literal string body after '(' *)
-Fixpoint lit_string (s : bytes) (pos : N) (depth : nat) (acc : bytes) {struct s} : res (bytes * cur) :=
-  match s with
-  | [] => Err 9
-  | c :: t =>
-    if c =? 92 then
-      match t with
-      | [] => Err 9
-      | e :: t2 =>
-        if e =? 110 then lit_string t2 (pos + 2) depth (10 :: acc)
-        else if e =? 114 then lit_string t2 (pos + 2) depth (13 :: acc)
-        else if e =? 116 then lit_string t2 (pos + 2) depth (9 :: acc)
-        else if e =? 98 then lit_string t2 (pos + 2) depth (8 :: acc)
-        else if e =? 102 then lit_string t2 (pos + 2) depth (12 :: acc)
-        else lit_string t2 (pos + 2) depth (e :: acc)      (* \( \) \\ ; octal escapes are outside the domain *)
-      end
-    else if c =? 40 then lit_string t (pos + 1) (S depth) (c :: acc)
-    else if c =? 41 then
-      match depth with
-      | O => Ok (rev acc, (pos + 1, t))
-      | S d => lit_string t (pos + 1) d (c :: acc)
-      end
-    else lit_string t (pos + 1) depth (c :: acc)
-  end.
-
-(** lexer/str.rs: hex string body after '<' *)
-Fixpoint hex_string (s : bytes) (pos : N) (hi : option N) (acc : bytes) {struct s} : res (bytes * cur) :=
-  match s with
-  | [] => Err 9
-  | c :: t =>
-    if c =? 62 then Ok (rev (match hi with Some h => h * 16 :: acc | None => acc end), (pos + 1, t))
-    else if is_ws c then hex_string t (pos + 1) hi acc
-    else
-      let v := if is_digit c then Some (c - 48)
-               else if (97 <=? c) && (c <=? 102) then Some (c - 87)
-               else if (65 <=? c) && (c <=? 70) then Some (c - 55) else None in
-      match v with
-      | None => Err 9
-      | Some x => match hi with
-                  | None => hex_string t (pos + 1) (Some x) acc
-                  | Some h => hex_string t (pos + 1) None (h * 16 + x :: acc)
-                  end
-      end
-  end.
-
-(** parser/mod.rs: parse_with_lexer_ctx (values; streams are handled by parse_obj) *)
-Fixpoint pval (fuel : nat) (c : cur) {struct fuel} : res (prim * cur) :=
-  match fuel with
-  | O => OutOfFuel
-  | S f =>
-    let '(p, s) := skip_ws (fst c) (snd c) false in
-    match s with
-    | [] => Err 9
-    | x :: t =>
-      if x =? 47 then
-        let '(w, r) := span_regular t [] in Ok (PName w, (p + 1 + lenN w, r))
-      else if x =? 40 then
-        do sr <- lit_string t (p + 1) O []; Ok (PStr (fst sr), snd sr)
-      else if x =? 91 then
-        (fix items (k : nat) (c : cur) (acc : list prim) {struct k} : res (prim * cur) :=
-           match k with
-           | O => OutOfFuel
-           | S k' =>
-             let '(p1, s1) := skip_ws (fst c) (snd c) false in
-             match s1 with
-             | [] => Err 9
-             | y :: t1 => if y =? 93 then Ok (PArr (rev acc), (p1 + 1, t1))
-                          else do vr <- pval f (p1, s1); items k' (snd vr) (fst vr :: acc)
-             end
-           end) fuel (p + 1, t) []
-      else if x =? 60 then
-        match t with
-        | y :: t1 =>
-          if y =? 60 then
-            (fix entries (k : nat) (c : cur) (acc : dict) {struct k} : res (prim * cur) :=
-               match k with
-               | O => OutOfFuel
-               | S k' =>
-                 let '(p1, s1) := skip_ws (fst c) (snd c) false in
-                 match s1 with
-                 | a :: ((b :: t2) as t1') =>
-                   if (a =? 62) && (b =? 62) then Ok (PDict acc, (p1 + 2, t2))
-                   else if a =? 47 then
-                     let '(w, r) := span_regular t1' [] in
-                     do vr <- pval f (p1 + 1 + lenN w, r);
-                     entries k' (snd vr) (dinsert acc w (fst vr))
-                   else Err 9
-                 | _ => Err 9
-                 end
-               end) fuel (p + 2, t1) []
-          else do sr <- hex_string t (p + 1) None []; Ok (PStr (fst sr), snd sr)
-        | [] => Err 9
-        end
-      else
-        let '(w, r) := span_regular s [] in
-        let c1 := (p + lenN w, r) in
-        if beq_bytes w [116; 114; 117; 101] then Ok (PBool true, c1)
-        else if beq_bytes w [102; 97; 108; 115; 101] then Ok (PBool false, c1)
-        else if beq_bytes w [110; 117; 108; 108] then Ok (PNull, c1)
-        else if all_digits w then
-          (* integer integer R ? *)
-          let '(w2, c2) := next_word c1 in
-          if all_digits w2 then
-            let '(w3, c3) := next_word c2 in
-            if beq_bytes w3 [82] then Ok (PRef (N_of_dec w) (N_of_dec w2), c3)
-            else Ok (PInt (Z.of_N (N_of_dec w)), c1)
-          else Ok (PInt (Z.of_N (N_of_dec w)), c1)
-        else match w with
-             | [] => Err 9
-             | _ => do v <- parse_number w; Ok (v, c1)
-             end
-    end
-  end.
-
-Definition kw_obj := [111; 98; 106].
-Definition kw_endobj := [101; 110; 100; 111; 98; 106].
-Definition kw_stream := [115; 116; 114; 101; 97; 109].
-Definition kw_Length := [76; 101; 110; 103; 116; 104].
-
-(** parser/parse_object.rs: parse_indirect_object at an absolute position: ((id, gen), value) *)
+(** file.rs: resolve_ref, the XRef::Raw arm (strict options: `endobj` is required) *)
 Definition parse_obj (bk : bytes) (pos : N) : res (N * N * prim) :=
   if lenN bk <? pos then Err 9 else
-  let c0 := (pos, drop pos bk) in
-  let fuel := S (length (snd c0)) in
-  let '(w1, c1) := next_word c0 in
-  let '(w2, c2) := next_word c1 in
-  let '(w3, c3) := next_word c2 in
-  if negb (all_digits w1 && all_digits w2 && beq_bytes w3 kw_obj) then Err 9 else
-  do vr <- pval fuel c3;
-  let '(v, c4) := vr in
-  let '(w4, c5) := next_word c4 in
-  if beq_bytes w4 kw_endobj then Ok (N_of_dec w1, N_of_dec w2, v)
-  else if beq_bytes w4 kw_stream then
-    match v with
-    | PDict d =>
-      (* end of line after the keyword: CR LF or LF *)
-      let c6 := match snd c5 with
-                | a :: t => if a =? 13 then match t with b :: t2 => if b =? 10 then (fst c5 + 2, t2) else (fst c5 + 1, t) | [] => (fst c5 + 1, t) end
-                            else if a =? 10 then (fst c5 + 1, t) else c5
-                | [] => c5 end in
-      match dget d kw_Length with
-      | Some (PInt z) =>
-        let lo := fst c6 in
-        let hi := lo + Z.to_N z in
-        if (0 <=? z)%Z && (hi <=? lenN bk) then Ok (N_of_dec w1, N_of_dec w2, PStream d (SInFile lo hi)) else Err 9
-      | Some _ => Err 97
-      | None => Err 9
-      end
-    | _ => Err 9
-    end
-  else Err 9.
+  do x <- Parser.parse_indirect_object len_resolver false F_ANY (Lexer.mkLx pos (drop pos bk));
+  Ok (fst x).
 
 (** parser: parse(slice) of a member of an object stream *)
-Definition parse_slice (s : bytes) : res prim :=
-  do vr <- pval (S (length s)) (0, s); Ok (fst vr).
+Definition parse_slice (s : bytes) : res prim := Parser.parse len_resolver F_ANY s.
+
+(** parse_with_lexer(lexer, resolve, ParseFlags::DICT) at a cursor (the trailer dictionary of a classic table) *)
+Definition parse_dict_at (c : cur) : res prim :=
+  do x <- Parser.parse_ctx len_resolver None F_DICT MAX_DEPTH (Lexer.mkLx (fst c) (snd c)); Ok (fst x).
